@@ -38,6 +38,12 @@ def run_property(pid: str, repo: str, tier: str, seed: int, quiet: bool = False,
 
 
 def main(argv=None) -> int:
+    try:
+        import signal
+
+        signal.signal(signal.SIGPIPE, signal.SIG_DFL)  # a closed stdout pipe ends the run quietly
+    except (AttributeError, ValueError):
+        pass
     ap = argparse.ArgumentParser(prog="check")
     ap.add_argument("pid")
     ap.add_argument("--tier", default=os.environ.get("VERIF_TIER", "quick"), choices=["quick", "thorough"])
